@@ -17,6 +17,13 @@ def run(pid, tier, maxw=2):
     for sig, fs in sorted(by.items()):
         print("==", sig, len(fs))
         for f in fs[:maxw]:
-            print("   case:", f["case"]); print("     exp:", str(f["expected"])[:300]); print("     got:", str(f["observed"])[:300])
+            c = f["case"]
+            if isinstance(c, dict) and "src" in c and os.environ.get("TRIAGE_SRC", "1") == "1":
+                print("   ---"); print("   " + c["src"].replace("\n", "\n   "))
+                e, o = f["expected"], f["observed"]
+                print("     exc py/ps:", e[2], o[2], " detail:", f.get("detail"))
+                if e[0] != o[0]: print("     globals py:", str(e[0])[:200]); print("     globals ps:", str(o[0])[:200])
+            else:
+                print("   case:", c); print("     exp:", str(f["expected"])[:300]); print("     got:", str(f["observed"])[:300])
 if __name__ == "__main__":
     run(sys.argv[1].upper(), sys.argv[2] if len(sys.argv) > 2 else "quick", int(sys.argv[3]) if len(sys.argv) > 3 else 2)
